@@ -29,6 +29,9 @@ package dns
 //@   pure
 //@ iface RR.pack [C16]
 //@   opt no-safety
+//@   requires 0 <= off
+//@   ensures mono: ret1 == nil ==> off <= ret0
+//@   ensures rng: ret1 == nil && off <= len(msg) ==> ret0 <= len(msg)
 //@   writes msg
 //@   modifies MS.mapLstringJint MS.mapLstringJuint16
 
